@@ -1371,6 +1371,7 @@ fn check_first_use(fu: &FirstUse, out: &mut CaseOut) {
 
 pub fn property() -> Property {
     Property {
+        fuzz: vec![],
         id: "C18",
         rule: "a case is a credential store, a request (method, Request-URI, body) and one or more 401/407 responses with Digest challenges; \
                it counts as non-trivial when at least one produced header was verified by the reference verifier AND the case involves a -sess \
